@@ -188,6 +188,13 @@ func (r *Report) Finish(verifd string) int {
 			}
 		}
 	}
+	if pat := os.Getenv("YV_VERBOSE"); pat != "" {
+		for _, o := range r.Obls {
+			if pat == "all" || strings.HasPrefix(o.Rule, pat) {
+				fmt.Printf("  [%s] %-9s %s (%s): %s\n", o.Rule, o.Status, o.Construct, o.Pos, o.Detail)
+			}
+		}
+	}
 	replay := ""
 	selftest := os.Getenv("YV_SELFTEST") != ""
 	if nviol > 0 && selftest {
@@ -263,7 +270,7 @@ func (r *Report) writeEvidence(verifd string, nviol, nknown int) {
 		"samples":             samples,
 		"open":                open,
 		"analysed":            r.Analysed,
-		"not_decided":         r.NotDecided,
+		"not_decided":         orEmpty(r.NotDecided),
 		"checker_cmd":         "bin/yvcheck -prop " + r.Prop + " -tier " + r.Tier,
 		"trusted_base":        []string{"go/types and go/ssa of golang.org/x/tools v0.50.0", "goyacc (LALR construction)", "the checker itself", "the RFC 6020 / XPath 1.0 / XML-Names tables transcribed in checker/spec_*.go"},
 	}
@@ -272,6 +279,15 @@ func (r *Report) writeEvidence(verifd string, nviol, nknown int) {
 	}
 	seed := 0
 	fmt.Sscanf(os.Getenv("VERIF_SEED"), "%d", &seed)
+	if r.Assumptions == nil {
+		r.Assumptions = defaultAssumptions[r.Prop]
+	}
+	if r.Assumptions == nil {
+		r.Assumptions = []string{}
+	}
+	if r.NotDecided == nil {
+		r.NotDecided = []string{}
+	}
 	ev := map[string]any{
 		"property_id": r.Prop,
 		"tier":        r.Tier,
@@ -290,4 +306,27 @@ func (r *Report) writeEvidence(verifd string, nviol, nknown int) {
 func short(s string) string {
 	s = strings.ReplaceAll(s, modPath+"/", "")
 	return s
+}
+
+func orEmpty(s []string) []string {
+	if s == nil {
+		return []string{}
+	}
+	return s
+}
+
+// defaultAssumptions: what each property's rules take as given (used when the
+// property file does not set its own list).
+var defaultAssumptions = map[string][]string{
+	"C08": {"strings.Index/TrimRight/Builder behave as documented (standard library)", "RFC 6020 section 6.1.3 trimming rules as transcribed in checker/c08.go"},
+	"C10": {"RFC 6020 section 6.1.3 escape table as transcribed in checker/c08.go", "rune iteration over a Go string decodes UTF-8 as documented"},
+	"C12": {"schema trees are built only through the compile package's Build*/add* functions (checked who-may-call, not assumed, for the anchored ones)"},
+	"C13": {"strconv.ParseInt/ParseUint/ParseFloat report range errors as documented", "RFC 6020 section 9 built-in type bounds as transcribed in checker/c13.go"},
+	"C14": {"RFC 6020 section 7.19.2 status ordering current < deprecated < obsolete as transcribed in checker/c14.go"},
+	"C15": {"prefix maps are created only by the module/submodule constructors analysed under R15"},
+	"C16": {"regexp.Compile accepts the anchored translation of every pattern the existing fixtures use", "RFC 6020 section 9 restriction semantics as transcribed in checker/c16.go"},
+	"C17": {"error path segments are produced only by the constructors analysed under R17"},
+	"C18": {"RFC 6020 sections 7.6.5, 7.7.3, 7.7.4, 7.9.4 mandatory/min-elements semantics as transcribed in checker/c18.go"},
+	"C19": {"encoding/json and encoding/xml tokenisers behave as documented (standard library)"},
+	"C20": {"schema filters are pure predicates over schema.Node values (R20.3 checks the ones defined in the module)"},
 }
